@@ -161,3 +161,62 @@ def _apply_op(jobdoc, path, op, arg):
                 arg, rel, ab = arg
         return (not isdict) and math.isclose(have, float(arg), rel_tol=float(rel), abs_tol=float(ab))
     raise KeyError(op)
+
+
+# ---------------------------------------------------------------------------------------------------------------
+# C18 oracles
+def flat_leaves(sp, pre=""):
+    """dotted leaf key -> value; a leaf is any non-mapping value or an empty mapping"""
+    out = {}
+    for k, v in sp.items():
+        if isinstance(v, dict) and v:
+            out.update(flat_leaves(v, pre + k + "."))
+        else:
+            out[pre + k] = v
+    return out
+
+
+def schema(sps, exclude_const):
+    """{dotted key: {type: set(values)}} over the given state points (lists as tuples); with exclude_const the keys on which
+    ALL jobs agree (key present everywhere, same JSON value) are omitted."""
+    flats = [flat_leaves(sp) for sp in sps]
+    keys = set()
+    for f in flats:
+        keys |= set(f)
+    out = {}
+    for k in keys:
+        allv = [f[k] for f in flats if k in f]  # an empty mapping is a (value-less) leaf: it counts for constancy
+        if exclude_const and sps and len(allv) == len(sps) and all(same_json(allv[0], v) for v in allv):
+            continue
+        vals = [v for v in allv if not isinstance(v, dict)]
+        by = {}
+        for v in vals:
+            v = _norm(v)
+            by.setdefault(type(v), set()).add(v)
+        # keep 1 / True / 1.0 apart although they are ==
+        out[k] = {t: {(type(x), x) for x in s} for t, s in by.items()}
+    return out
+
+
+def schema_of(project_schema):
+    """normalise a signac ProjectSchema the same way"""
+    return {k: {t: {(type(x), x) for x in s} for t, s in project_schema[k].items() if s} for k in project_schema}
+
+
+def diffs(sps):
+    """per job: nested dict of its (dotted key, value) pairs not shared by all jobs (Python ==)"""
+    flats = [{k: _norm(v) for k, v in flat_leaves(sp).items()} for sp in sps]
+    common = [kv for kv in flats[0].items() if all(k in f and f[k] == v for f in flats for k, v in [kv])] if flats else []
+    out = []
+    for f in flats:
+        d = {}
+        for k, v in f.items():
+            if (k, v) in common:
+                continue
+            parts = k.split(".")
+            cur = d
+            for p in parts[:-1]:
+                cur = cur.setdefault(p, {})
+            cur[parts[-1]] = v
+        out.append(d)
+    return out, dict(common)
